@@ -235,6 +235,21 @@ def huge_record(rng, s, j, dt=None):
         rc += r + ["light"]
         ic += i_ + ["slow"]
     rc, ic = rc[:n], ic[:n]
+    removed = set()
+    if rng.random() < 0.5:
+        # a gap near one end: one stretch stays very long
+        a = rng.choice([rng.randint(50, 600), n - rng.randint(50, 600)])
+        removed = set(range(a, a + rng.randint(1, 40)))
+    # whatever the seed: a storm with its rise across sample 2**14 of the long stretch (and one across 2**13), where code that
+    # works through a record in blocks of a power of two would cut it
+    first = (max(removed) + 1) if removed and min(removed) < 1000 else 0
+    for centre in (first + 2 ** 14, first + 2 ** 13):
+        half = rng.randint(60, 300)
+        for q in range(max(1, centre - half), min(n - 2, centre + half)):
+            rc[q], ic[q] = "heavy", "fast"
+        for q in (centre - half - 1, centre + half):
+            if 0 < q < n - 1:
+                rc[q], ic[q] = "light", "slow"
     # small increments so that levels stay moderate over thousands of rising steps
     jd = j * (dt / 3600.0)
     t0 = (rng.randint(631152000, 1500000000) // dt) * dt
@@ -243,11 +258,6 @@ def huge_record(rng, s, j, dt=None):
     for i in range(n - 1):
         c = ic[i]
         level.append(level[-1] + (jd * 1.25 if c == "fast" else (jd * 0.5 if c == "slow" else (0.0 if c == "flat" else -jd * 0.75))))
-    removed = set()
-    if rng.random() < 0.5:
-        # a gap near one end: one stretch stays very long
-        a = rng.choice([rng.randint(50, 600), n - rng.randint(50, 600)])
-        removed = set(range(a, a + rng.randint(1, 40)))
     return Record(dt, t0, rain, level, removed, 0, 1)
 
 
